@@ -45,6 +45,8 @@ def mid(name_of_leaf: str, variant: dict, tag: str = 'm') -> str:
 	wrap = variant.get('wrap', 'plain')
 	lines = ['from collections.abc import Callable', f'from {name_of_leaf} import Item, Tone, base_val, make_item, SEED', '', '']
 	lines += [f'def {tag}_seed() -> int:', '\tseed = SEED', '\tseeds = [SEED, seed]', '\treturn len(seeds)', '', '']
+	# the only dict type of the project (a user template may request an include for it): root has none
+	lines += [f'def {tag}_table() -> int:', "\ttable: dict[str, int] = {'k': 1}", '\treturn len(table)', '', '']
 	# closures capturing several names: the order of a capture list is part of the emitted text
 	lines += [f'def {tag}_closure(n: int) -> int:', '\talpha = n + 1', '\tbeta = n + 2', '\tgamma = n + 3', '\tdelta = n + 4',
 		'\tdef inner(k: int) -> int:', '\t\treturn gamma + alpha + k + delta + beta', '',
